@@ -204,8 +204,8 @@ fn system_time_extremes() -> (i128, i128) {
 /// three ways.  The reopened package must report the time that was set last.
 fn session_shapes(rep: &mut Report, only: Option<(usize, usize, usize)>) {
     let times: [i128; 3] = [1_700_000_000_123_456_700, -5_000_000_000_000_000_100, 0];
-    let pages: [(i32, &str); 8] = [(65001, "日本 é"), (932, "日本語の題名"), (936, "中文标题"), (949, "한국어"), (950, "繁體中文"), (951, "繁體"), (1252, "café"), (1251, "тема")];
-    for shape in 0..6usize {
+    let pages: [(i32, &str); 10] = [(65001, "日本 é"), (932, "日本語の題名"), (936, "中文标题"), (949, "한국어"), (950, "繁體中文"), (951, "繁體"), (1252, "café"), (1251, "тема"), (65001, "ACME\0Corp"), (1252, "a\0")];
+    for shape in 0..7usize {
         for mode in 0..3usize {
             for (ti, &ns) in times.iter().enumerate() {
                 if let Some(o) = only {
@@ -261,15 +261,16 @@ fn session_shapes(rep: &mut Report, only: Option<(usize, usize, usize)>) {
                             w.write_all(b"stream").map_err(|e| e.to_string())?;
                             w.flush().map_err(|e| e.to_string())?;
                         }
-                        _ => {
+                        5 | 6 => {
                             // strings of every kind of code page stored in front of the time
-                            let (page, text) = pages[(ti * 3 + mode) % pages.len()];
+                            let (page, text) = pages[(ti * 3 + mode + (shape - 5) * 9) % pages.len()];
                             p.summary_info_mut().set_codepage(crate::cpora::msi_page(page).ok_or("page")?);
                             p.summary_info_mut().set_title(text);
                             p.summary_info_mut().set_author(format!("{}{}", text, text));
                             p.summary_info_mut().set_comments(text.repeat(3));
                             p.summary_info_mut().set_creation_time(t);
                         }
+                        _ => unreachable!(),
                     }
                     let before = p.summary_info().creation_time();
                     match mode {
